@@ -117,6 +117,9 @@ def _check(rep):
     # the characters of a literal reach the lexer as written: a rewriting of the text (unescaping, stripping, normalising) can turn
     # content into a delimiter
     ER.rule_text_unmodified(ctx, rid="C13.TEXT-UNMODIFIED")
+    # whether a string literal stays a string must not depend on its characters: a Union that tries a numeric member first turns
+    # "nan" into the name nan and "02134" into a number
+    PR.rule_coercions(ctx, rid="C13.STRING-STAYS-STRING")
     PR.rule_renderers(ctx, rid="C13.TAINT", kinds=("str",), extra_safe=("json",))
     PR.rule_string_surface(ctx)
     n = PR.rule_placement(ctx)
